@@ -32,6 +32,7 @@ var corpusScenarios = []corpusScenario{
 	{"fee-rate-zero-and-one", false, corpusFeeRateZeroAndOne},
 	{"epoch-and-equal-dates", false, corpusEpochAndEqualDates},
 	{"update-same-order-twice", false, corpusUpdateSameOrderTwice},
+	{"buy-across-markets", false, corpusBuyAcrossMarkets},
 }
 
 func init() { QuickCounts["corpus"] = len(corpusScenarios) }
@@ -331,6 +332,45 @@ func corpusUpdateSameOrderTwice(c Cfg) *Result {
 	g.Commit()
 	g.Begin(g.now.Add(2 * time.Hour)) // both orders with an expiration are pruned: 15.5 + 8 return to tradable
 	g.Do(a.MsgSendCredits(0, 1, denom, "1", "", "", ""), "an ordinary send after the expiry")
+	g.Commit()
+	return g.Finish()
+}
+
+// ---- buy-across-markets (C03/C07) -----------------------------------------------------------------------
+
+func corpusBuyAcrossMarkets(c Cfg) *Result {
+	g := NewG(c, chain.Options{GenesisTime: T0})
+	a := g.App
+	g.Begin(g.now.Add(6 * time.Second))
+	g.setupDenoms() // stake, uatom, uregen allowed
+	g.gov(a.MsgGovSetFeeParams("0.01", "0.02"), "fee params")
+	_, _, denom := g.corpusWorld()
+	sell := func(seller int, q string, d string, ask int64) uint64 {
+		g.Do(a.MsgSell(seller, chain.SellOrder(denom, q, coin(d, ask), true, nil)), fmt.Sprintf("user %d sells %s at %d%s", seller, q, ask, d))
+		return g.Rec.State().Sequences["SellOrder"]
+	}
+	dust := sell(2, "0.000001", "uatom", 1)   // the accomplice's dust order in the cheap denom
+	victim := sell(1, "10", "stake", 1000000) // the victim's order
+	third := sell(0, "5", "uregen", 2000)     // a third market
+	g.Commit()
+	const buyer = 3
+	bo := func(id uint64, q, d string, bid, fee int64) *marketBuy {
+		return chain.BuyOrder(id, q, coin(d, bid), true, "", "", coin(d, fee))
+	}
+	okN := func(t string) string { return expectNote(true, "C07", "matching-bid-denom-rejected", t) }
+	noN := func(t string) string { return expectNote(false, "C07", "bid-denom!=ask-denom", t) }
+	g.Begin(g.nextTime())
+	g.Do(a.MsgBuyDirect(buyer, bo(dust, "0.0000005", "uatom", 1, 1)), "a quantity below the precision is rejected")
+	g.Do(a.MsgBuyDirect(buyer, bo(victim, "1", "stake", 1000000, 20000), bo(third, "1", "uregen", 2000, 100)), okN("two orders of different markets, each bid in its own ask denom"))
+	g.Do(a.MsgBuyDirect(buyer, bo(third, "1", "uregen", 2000, 100), bo(victim, "1", "uregen", 1000000, 20000)), noN("the victim's stake order bid in the first order's denom uregen"))
+	g.Do(a.MsgBuyDirect(buyer, bo(victim, "1", "stake", 1000000, 20000), bo(third, "1", "stake", 2000, 100)), noN("the uregen order bid in the first order's denom stake"))
+	// the dust order comes first, then the victim's order is bid in the cheap denom
+	dust2 := sell(2, "0.000002", "uatom", 1)
+	g.Do(a.MsgBuyDirect(buyer, bo(dust2, "0.000001", "uatom", 1, 1), bo(victim, "5", "uatom", 1000000, 60000)), noN("a dust order at 1uatom first, then the victim's 1000000stake order bid in uatom"))
+	g.Do(a.MsgBuyDirect(buyer, bo(dust2, "0.000001", "uatom", 1, 1), bo(third, "1", "uregen", 2000, 100), bo(victim, "1", "stake", 1000000, 20000)), okN("three orders of three markets, each bid in its own ask denom"))
+	dust3 := sell(2, "0.000002", "uatom", 1)
+	g.Do(a.MsgBuyDirect(buyer, bo(dust3, "0.000001", "uatom", 1, 1), bo(third, "1", "uatom", 2000, 100), bo(victim, "1", "uatom", 1000000, 20000)), noN("three orders, the second and third bid in the first order's denom uatom"))
+	g.Do(a.MsgBuyDirect(buyer, bo(dust3, "0.000001", "uatom", 1, 1), bo(third, "1", "uregen", 2000, 100), bo(victim, "1", "uregen", 1000000, 20000)), noN("three orders, the third bid in the second order's denom"))
 	g.Commit()
 	return g.Finish()
 }
